@@ -35,7 +35,7 @@ var keywords = map[string]bool{"do": true, "if": true, "for": true, "int": true,
 	"char": true, "else": true, "enum": true, "goto": true, "long": true, "null": true, "this": true, "true": true, "void": true, "to": true, "with": true, "non": true}
 
 func gen(t *rapid.T) Case {
-	p := jgen.GenProject(t, jgen.Opts{Bodies: true, MultiByte: true, Interfaces: true, MaxUnits: 4, MaxMethods: 4, Wide: true, RichDecl: true, SharedMethodNames: true})
+	p := jgen.GenProject(t, jgen.Opts{Bodies: true, MultiByte: true, Interfaces: true, MaxUnits: 4, MaxMethods: 4, Wide: true, RichDecl: true, SharedMethodNames: true, WildcardProjectImports: true, SuperCallsDeclared: true})
 	// some files use CRLF line ends: columns and lines are unaffected, every other byte must survive
 	for i := range p.Files {
 		if strings.HasSuffix(p.Files[i].Path, ".java") && rapid.IntRange(0, 7).Draw(t, "crlf") == 0 {
@@ -47,7 +47,7 @@ func gen(t *rapid.T) Case {
 		class, name string
 		sites       int
 	}
-	var cands, withSites []cand
+	var cands, withSites, crossFile []cand
 	for _, u := range p.Units {
 		if u.Kind != "Class" {
 			continue
@@ -62,11 +62,15 @@ func gen(t *rapid.T) Case {
 			}
 			cd := cand{class: u.FullName(), name: f.Name}
 			target := u.FullName() + "." + f.Name
+			elsewhere := false
 			for _, u2 := range p.Units {
 				for _, f2 := range u2.Funcs {
 					for _, e := range f2.Events {
 						if e.Target == target {
 							cd.sites++
+							if u2.FullName() != u.FullName() {
+								elsewhere = true
+							}
 						}
 					}
 				}
@@ -74,6 +78,9 @@ func gen(t *rapid.T) Case {
 			cands = append(cands, cd)
 			if cd.sites > 0 {
 				withSites = append(withSites, cd)
+			}
+			if elsewhere {
+				crossFile = append(crossFile, cd)
 			}
 		}
 	}
@@ -83,6 +90,10 @@ func gen(t *rapid.T) Case {
 	pick := cands
 	if len(withSites) > 0 && rapid.IntRange(0, 5).Draw(t, "preferSites") > 0 {
 		pick = withSites
+		// and among those, methods that are called from another file
+		if len(crossFile) > 0 && rapid.Bool().Draw(t, "preferCrossFile") {
+			pick = crossFile
+		}
 	}
 	sort.Slice(pick, func(i, j int) bool { return pick[i].sites > pick[j].sites })
 	cd := pick[rapid.IntRange(0, len(pick)-1).Draw(t, "subject")]
@@ -232,7 +243,17 @@ func check(c Case) pbt.Verdict {
 	// ground truth: the declaration and every generated call site meant for the method must be among them
 	target := c.Class + "." + c.Old
 	sites, sameLine, mbLeft := 0, false, false
+	wildcardSite, wildcardUnit, superSite := false, false, false
 	for i, u := range c.Project.Units {
+		wildcardOnly := false
+		for _, ft := range u.Features {
+			switch {
+			case ft == "wildcard_project_import":
+				wildcardUnit = true
+			case ft == "wildcard_only:"+c.Class:
+				wildcardOnly = true
+			}
+		}
 		lines := strings.Split(c.Project.Files[i].Text, "\n")
 		perLine := map[int]int{}
 		for _, f := range u.Funcs {
@@ -242,8 +263,14 @@ func check(c Case) pbt.Verdict {
 				}
 			}
 			for _, e := range f.Events {
+				if e.Target == target && e.Recv == "super" {
+					superSite = true // not asserted to be attributed: the model decides
+				}
 				if e.Target == target && e.Resolve {
 					sites++
+					if wildcardOnly {
+						wildcardSite = true
+					}
 					if !seen[edit{u.Path, e.Line, e.Col}] {
 						return pbt.Fail("the call of %s at %s:%d:%d (receiver kind %s) is not attributed to it by the model", target, u.Path, e.Line, e.Col, e.Recv)
 					}
@@ -383,6 +410,15 @@ func check(c Case) pbt.Verdict {
 	if sites >= 1 {
 		v.Classes = append(v.Classes, "has_call_sites")
 	}
+	if wildcardUnit {
+		v.Classes = append(v.Classes, "unit_with_wildcard_project_import")
+	}
+	if wildcardSite {
+		v.Classes = append(v.Classes, "call_site_reaches_class_through_wildcard_import_only")
+	}
+	if superSite {
+		v.Classes = append(v.Classes, "super_call_of_renamed_method")
+	}
 	if c.CLI {
 		v.Classes = append(v.Classes, "cli")
 	}
@@ -444,9 +480,11 @@ func firstDiff(orig, want, got string) string {
 func init() {
 	pbt.SetProperty("C05")
 	jgen.SetExcluded(pbt.Excluded)
-	pbt.Describe("rapid-generated conventional Java projects (jgen, 1-4 units with method bodies, multi-byte literals and comments, several invocations per line, the method's name also inside string literals and comments as decoys) and a rename request for a class method whose name is unique in its class, preferring methods with call sites; new names of length 1, the same length, 20-40 characters, or 1-13 characters. Oracle: the allowed edits are the declaration identifier and the callee identifier of every call the pre-rename model attributes to the method (positions taken from the model, cross-checked against the printer's table: the declaration and every generated call site with an implicit / field / parameter / local receiver of that class must be among them); all edits are applied to the original text at once (in characters) and every file of the project must byte-equal the result; then the rewritten tree is re-analysed and must give the original model with the method and those calls renamed and start columns shifted. Non-trivial = at least 2 edited tokens and (two on one line, or multi-byte text left of a token, or a length change); distinct = hash of the case.",
+	pbt.Describe("rapid-generated conventional Java projects (jgen, 1-4 units with method bodies, multi-byte literals and comments, several invocations per line, the method's name also inside string literals and comments as decoys; a calling class of another package reaches the renamed method's class through a single-type import, through a wildcard import of its package only, or through both, among unrelated wildcard imports; subclasses call methods their project superclass declares as super.m(...)) and a rename request for a class method whose name is unique in its class, preferring methods with call sites, and among those methods called from another file; new names of length 1, the same length, 20-40 characters, or 1-13 characters. Oracle: the allowed edits are the declaration identifier and the callee identifier of every call the pre-rename model attributes to the method (positions taken from the model, cross-checked against the printer's table: the declaration and every generated call site with an implicit / field / parameter / local receiver of that class must be among them); all edits are applied to the original text at once (in characters) and every file of the project must byte-equal the result; then the rewritten tree is re-analysed and must give the original model with the method and those calls renamed and start columns shifted. Non-trivial = at least 2 edited tokens and (two on one line, or multi-byte text left of a token, or a length change); distinct = hash of the case.",
 		"rename subjects are class methods (interface method positions start at the first token of the declaration, DESIGN.md appendix B) whose name is not overloaded in the class",
 		"the new name is fresh in the project (letters only; all generated identifiers end in a digit)",
+		"simple class names are unique in the project, so a class reached through a wildcard import is still denoted by its plain name",
+		"super.m(...) calls are not required to be attributed to the superclass's method (the statement's edits are the calls the model attributes); when the model does attribute them they must be renamed like any other call",
 		"one case in fifteen goes through the sub-process `coca refactor -R conf -d deps.json` with the model serialised to deps.json")
 	pbt.Register("rename", 400, 2000, gen, check)
 }
